@@ -220,3 +220,24 @@ def run_apply(P, signature, axis, args=None, boundary_width=None, axnames=("AX",
         return b
 
     return ev.run_paths(fi, make)
+
+
+# ------------------------------------------------------------------ what may happen to a computed array on its way back
+NEUTRAL_OPS = {"copy", "transpose", "chunk", "unify_chunks", "assign_attrs", "drop_vars", "reset_coords", "reset_index", "drop_indexes", "squeeze",
+               "rename", "rename-name", "assign_coords", "swap_dims", "set_index", "pipe", "compute_chunk_sizes"}
+VALUE_CHANGING_OPS = {"astype", "fillna", "round", "clip", "where", "mask", "mult", "div", "add", "sub", "rmult", "rdiv", "radd", "rsub", "neg", "abs", "pow", "mod",
+                      "cumsum", "cumprod", "isel", "sel", "roll", "shift", "pad", "interp", "interp_like", "mean", "sum", "min", "max", "prod", "std", "var", "median",
+                      "dropna", "ffill", "bfill", "sortby", "reindex", "reindex_like", "interpolate_na", "diff", "rolling", "coarsen", "rank", "quantile", "conj",
+                      "lt", "gt", "lte", "gte", "invert", "getitem", "thin", "head", "tail"}
+
+
+def foreign_ops(effs, expected=()):
+    """Split the operations of a lineage that are neither expected by the rule nor value-neutral into those known to change
+    values (a finding) and those this table does not know (no verdict)."""
+    changing, unknown = [], []
+    for e in effs:
+        op = e[0]
+        if op in expected or op in NEUTRAL_OPS:
+            continue
+        (changing if op in VALUE_CHANGING_OPS else unknown).append(op)
+    return changing, unknown
